@@ -125,7 +125,11 @@ where
             self.base.update_stored_len(stored_len + pushed_len);
             #[cfg(feature = "verif")]
             rawdb::verif_sync::yield_point("compressed-write-fast:after-publish-len");
-            pages.flush()?;
+            let pending = pages.take_flush();
+            drop(pages);
+            if let Some((region, at, bytes)) = pending {
+                region.truncate_write(at, &bytes)?;
+            }
             return Ok(true);
         }
 
@@ -185,7 +189,11 @@ where
         self.base.update_stored_len(stored_len + pushed_len);
         #[cfg(feature = "verif")]
         rawdb::verif_sync::yield_point("compressed-write:after-publish-len");
-        pages.flush()?;
+        let pending = pages.take_flush();
+        drop(pages);
+        if let Some((region, at, bytes)) = pending {
+            region.truncate_write(at, &bytes)?;
+        }
 
         Ok(true)
     }
